@@ -82,7 +82,8 @@ func drawSecretScope(t *rapid.T) *gen.Scope {
 		placement := gen.MarkPlacement(rapid.IntRange(0, 2).Draw(t, "placement"))
 		if placement != gen.MarkTop {
 			// keys of a map are content of the collection itself: only a top-level mark covers them
-			if v.Type().IsMapType() {
+			if v.Type().IsMapType() || (v.Type().IsObjectType() && len(v.Type().AttributeTypes()) == 1) {
+				// (the single-attribute object shape has the secret as its attribute name)
 				placement = gen.MarkTop
 			}
 		}
